@@ -181,13 +181,17 @@ int BookBuildTest::run(int argc, char** argv) {
                     static const char* unequal[][2] = {
                         {"e2e3 e7e6 e3e4 e6e5 g1f3 b8c6 f1b5 a7a6", "e2e4 e7e5"}, {"d2d3 d7d6 d3d4 d6d5 c2c4 e7e6 b1c3 g8f6", "d2d4 d7d5"},
                         {"c2c3 c7c6 c3c4 c6c5 b1c3 b8c6 g2g3 g7g6", "c2c4 c7c5"}, {"e2e3 e7e6 e3e4 e6e5 g1f3 b8c6", "e2e4 e7e5 g1f3"},
-                        {"e2e3 d7d6 e3e4 d6d5 e4d5 d8d5 b1c3 d5a5", "e2e4 d7d5"}};
+                        {"e2e3 d7d6 e3e4 d6d5 e4d5 d8d5 b1c3 d5a5", "e2e4 d7d5"},
+                        // two parents with the same placement but different half-move clocks (different book keys), joined by the same pawn move
+                        {"d2d4 g8f6 g1f3 d7d5 c2c4", "g1f3 g8f6 d2d4 d7d5 c2c4"}, {"e2e4 e7e5 g1f3 b8c6 d2d4 e5d4", "g1f3 b8c6 e2e4 e7e5 d2d4 e5d4"},
+                        {"c2c4 g8f6 g1f3 e7e6 b1c3", "g1f3 g8f6 c2c4 e7e6 b1c3"}};
                     if (rnd.nextInt(10) < 4) {
-                        int k = rnd.nextInt(5);
-                        std::istringstream ms(unequal[k][rnd.nextInt(3) == 0 ? 1 : 0]);
+                        int k = rnd.nextInt(8);
+                        std::istringstream ms(unequal[k][k >= 5 ? rnd.nextInt(2) : (rnd.nextInt(3) == 0 ? 1 : 0)]);
                         std::string um;
                         while (ms >> um) {
                             Move m = TextIO::uciStringToMove(um);
+                            { MoveList l3; vh::legalMoves(p, l3); bool okm = false; for (int q = 0; q < l3.size; q++) if (l3[q] == m) okm = true; if (!okm) { fprintf(stderr, "h_book: illegal template move %s\n", um.c_str()); return 2; } }
                             if (p.isWhiteMove()) pgn << p.getFullMoveCounter() << ". ";
                             pgn << TextIO::moveToString(p, m, false) << " ";
                             UndoInfo ui; p.makeMove(m, ui);
